@@ -56,12 +56,12 @@ type simT struct {
 	faultCount map[string]int
 
 	// faults
-	fmu        sync.Mutex
-	plan       proto.FaultPlan
-	writes     int // mutating calls so far in this lifetime
-	matchCount int // mutating calls matching CrashMatch so far
-	errCount   int
-	corruptCnt map[int]int
+	fmu          sync.Mutex
+	plan         proto.FaultPlan
+	writes       int // mutating calls so far in this lifetime
+	matchCount   int // mutating calls matching CrashMatch so far
+	errCount     int
+	corruptCnt   map[int]int
 	pendingAfter string // label whose "after" crash is armed
 
 	out *os.File // result stream, for the crash message
